@@ -19,7 +19,7 @@ PROPERTY = "C09"
 
 STYPES = ["absacce", "relacce", "reldisp", "relvelo", "pvelo", "pacce"]
 ICS = ["zero", "shift", "mshift", "steady"]
-PEAKS = ["abs", "pos", "neg", "poss", "negs", "rms", "custom"]
+PEAKS = ["abs", "pos", "neg", "poss", "negs", "rms", "custom", "custom_inplace"]
 TIMES = ["primary", "total", "residual"]
 ROLLS = ["none", "lanczos", "fft", "linear", "prefilter", None, "custom"]
 QS = [10.0, 0.6, 5.0, 25.0, 50.5]
@@ -47,6 +47,14 @@ FDE_FIELDS = [
 def peak_custom(resp):
     """A user-supplied peak function (module level, hence picklable)."""
     return resp.max(axis=0) - resp.min(axis=0)
+
+
+def peak_custom_inplace(resp):
+    """A user-supplied peak function that works in place on the array it is given
+    (rectifies it, then takes the maximum): legal - the documentation only asks for the
+    peaks - and it makes the ORDER of 'take the peak' and 'store the history' observable."""
+    np.abs(resp, out=resp)
+    return resp.max(axis=0)
 
 
 def roll_custom(sig, sr, ppc, frq):
@@ -177,7 +185,7 @@ def gen_case(ch):
         desc["freq_dtype"] = fdt
         stype = STYPES[ch.draw(6, "stype")]
         ic = ICS[ch.draw(4, "ic")]
-        peak = PEAKS[ch.weighted([4, 1, 1, 1, 1, 1, 1], "peak")]
+        peak = PEAKS[ch.weighted([4, 1, 1, 1, 1, 1, 1, 1], "peak")]
         time = TIMES[ch.draw(3, "time")]
         roll = "none" if large else ROLLS[ch.weighted([4, 3, 2, 1, 1, 1, 1], "rolloff")]
         ppc = [12, 3, 25][ch.draw(3, "ppc")]
@@ -212,7 +220,7 @@ def gen_case(ch):
             kw = dict(
                 ic=ic,
                 stype=stype,
-                peak=peak_custom if peak == "custom" else peak,
+                peak=peak_custom if peak == "custom" else peak_custom_inplace if peak == "custom_inplace" else peak,
                 ppc=ppc,
                 rolloff=roll_custom if roll == "custom" else roll,
                 eqsine=eqsine,
@@ -246,6 +254,13 @@ def gen_case(ch):
         base, kind = _signal(ch, rng, n, 1)
         base = base[:, 0] + 0.05 * rng.standard_normal(n)
         lf = 80 + ch.draw(120, "LF_deep")
+    elif ch.flip(1, 40, "fde_long_signal"):
+        # a long record with few frequencies (anything that switches on above a size threshold)
+        n = 50001 + ch.draw(15000, "n_long")
+        base, kind = _signal(ch, rng, n, 1)
+        base = base[:, 0] + 0.05 * rng.standard_normal(n)
+        lf = 1 + ch.draw(3, "LF_long")
+        desc["long_signal"] = True
     freq = rng.uniform(sr / 100, 0.45 * sr, lf)
     if ch.flip(1, 3, "fsorted"):
         freq = np.sort(freq)
@@ -444,7 +459,7 @@ def run(ch, tr, st):
                             tr.ev("out", k, v)
                 else:
                     tr.ev("exc", type(ser[1]).__name__)
-            if ch.flip(1, 5, "same_objects_again"):
+            if ch.flip(1, 2, "same_objects_again") if (cases[-1][3].get("long_signal") or cases[-1][5].size > 50000) else ch.flip(1, 5, "same_objects_again"):
                 # a caller's loop that keeps its arrays: the SAME signal / frequency objects are
                 # passed to two parallel calls, the signal overwritten in place in between
                 target, build, par, desc, est_lines, base, freq = cases[-1]
